@@ -254,6 +254,13 @@ def load_known():
 _GO2V_DONE = False
 
 
+# a run that exercised (far) fewer cases than a quick run normally does proves nothing about the implementation: it is
+# reported as a broken obligation (about a third of the usual quick volume)
+MIN_EVALUATIONS = {"C01": 500, "C02": 1000, "C03": 10000, "C04": 2000, "C05": 5000, "C06": 3000, "C07": 600, "C08": 2000, "C09": 800,
+                   "C10": 8000, "C11": 20, "C12": 20000, "C13": 40, "C14": 2000, "C15": 1000000, "C16": 800000, "C17": 400000,
+                   "C18": 2500, "C19": 4000, "C20": 100000}
+
+
 class Check:
     """Collects what one check run found and renders verdict + evidence."""
 
@@ -331,6 +338,9 @@ class Check:
         wall = time.time() - self.t0
         rc = 0
         lines = []
+        if not self.violations and self.coverage.get("evaluations", 0) < MIN_EVALUATIONS.get(self.pid, 1):
+            self.obligation_broken("harness: only %d evaluations of the implementation (a quick run has at least %d): the run is vacuous" % (
+                self.coverage.get("evaluations", 0), MIN_EVALUATIONS.get(self.pid, 1)), "")
         for key, what in self.known_hits:
             lines.append("KNOWN-FINDING: property=%s %s" % (self.pid, what))
         os.makedirs(os.path.join(ROOT, "replays"), exist_ok=True)
